@@ -95,7 +95,9 @@ pub fn c07_oracle(spec: &MpcSpec, run: &MpcRun, triple_budget: usize) -> (Vec<Vi
             ps.sort();
             v.push(mk_violation(
                 "global-key-as-xor-of-two-values",
-                format!("key-xor2:{}+{}", ps[0], ps[1]),
+                // a leak the victim notices right afterwards (it aborts) and one it never notices are
+                // different findings
+                format!("key-xor2:{}+{}{}", ps[0], ps[1], if matches!(run.res.ends[h], crate::sim::End::Ok(_)) { ":victim-finishes-ok" } else { "" }),
                 format!("party {h}'s global key equals the XOR of the 128-bit value in {a} and the one in {b} [{what}]"),
                 spec,
             ));
